@@ -18,7 +18,7 @@ SELECT = {
     # invariants of the flush loops, frames): they are what "bytes leave in order, once" rests on
     "C04": ("R3:", "R1[", "C04-", "monitor[", "total-never-grows", "returns-whether-sent", "accepted-range", "coverage:", "pre:owns-output-state",
             "/inv:", "/inv-entry:", "/inv-preserved:", "frame:", "ensures:lookahead", "pre:worker", "pre:io", "__init__@IO/ensures:connected", "pre:callee-invariant",
-            "queued-behind-all-pending-output"),
+            "queued-behind-all-pending-output", "pre:C19-after-every-earlier-response"),
     "C05": ("W1-", "W2", "W4-", "W5-", "R5:", "C05-", "lock:", "coverage:", "raises:OSError", "raises-only"),
     "C11": ("R6:", "C11-", "close-when-flushed-means-queue-dropped", "R1[req]", "coverage:", "service@W[service]/loop0"),
     "C12": ("C12-", "W4-", "W5-", "R5:", "pre:owns-output-state", "R1[out]", "disconnected-before-the-lock-is-released", "lock:", "W1-", "coverage:", "pre:numbytes", "pre:nonneg"),
@@ -90,9 +90,10 @@ def main_for(prop, argv=None, level="other"):
         # a close decision taken by the PARSER (ambiguous framing) must reach the response: build_response_header honours request.connection_close,
         # so the requests buffered behind such a message are dropped like after any other closing response
         from props import taskworld
-        rest = taskworld.run(ck, ["task.Task.build_response_header", "task.WSGITask.execute"])
-        # ... and a response that turns out not to be delimited (fewer bytes than announced) closes the connection
-        world.report(ck, rest, select=lambda n: "C01-F7-parser-close-decision-honoured" in n or "C03-short-body-closes" in n or "coverage:" in n)
+        rest = taskworld.run(ck, ["task.Task.build_response_header", "task.WSGITask.execute", "task.Task.service"])
+        # ... and a response that turns out not to be delimited (fewer bytes than announced, or cut short by a socket error) closes the connection
+        world.report(ck, rest, select=lambda n: "C01-F7-parser-close-decision-honoured" in n or "C03-short-body-closes" in n or "coverage:" in n
+                     or "C09-a-socket-error-during-the-response-closes-the-connection" in n or "C03-socket-error-closes" in n)
         # ... and the parser takes that decision for every ambiguous framing (Content-Length next to chunked, Transfer-Encoding off HTTP/1.1)
         resp11 = world.run_functions(ck, ["adj", "buffers_abs", "receiver", "parser"], ["parser.HTTPRequestParser.parse_header"],
                                      timeout=20 if ck.tier == "quick" else 60, hooks_mod="contracts.parser")
